@@ -123,6 +123,19 @@ def check (pid : String) (j : Json) : Except String Verdict := do
   m := m.fill cap n fuel
   if m.completed != r1 then
     mm := some s!"{kind}: while Send is stalled the model lets {m.completed} lookups through (capacity {cap}), impl {r1}"
+  if kind = "stop" then
+    -- authentication failure while a lookup is parked in sendRequest: close() releases it (fact `sendAborts`), every
+    -- later lookup gives up at once; the sender stays in the stalled Send
+    m := m.step cap .rAuthFail "Recv fails with an authentication error: close()"
+    m := m.fill cap n fuel
+    if m.completed != n then
+      mm := mm <|> some s!"stop: after close() the model lets {m.completed} of {n} lookups return (a stopped client never blocks a producer)"
+    if r2 != n && !hang then mm := mm <|> some s!"stop: impl returned {r2} of {n} lookups without hanging"
+    if hang then
+      mm := mm <|> some s!"stop: the implementation hangs at lookup {r2 + 1}; in the model close() releases the producer that waits for room"
+      sf := some s!"{if pid = "C05" then "C05.bounded_time" else "C04.lookup_returns_after_stop"}: the client was stopped (authentication rejected) while lookup number {r2 + 1} waited for room in the full request channel; the stop did not release it: it never returns and holds the client and the manager lock, so every other lookup — cache hits included — hangs behind it"
+    else if !(jBoolD o "closed" false) then sf := some "C04.stop_is_final: the client is not stopped after the authentication error"
+    return { nontrivial := true, mismatch := m.err <|> mm, specfail := sf }
   m := m.step cap .resume "the connection resumes"
   if kind = "flood" then
     m := m.step cap .sSendDone "the stalled Send fails on the dead stream"
